@@ -37,6 +37,7 @@ type isoCfg struct {
 	// one (none anywhere if nothing is mounted); 2 no engine at all (Render reads a template file)
 	ViewsOn  int
 	BigBuf   bool // ReadBufferSize 16 KiB instead of 4 KiB
+	Split    bool // EnableSplittingOnParsers
 	SiteVars bool // a middleware binds the app's site-wide view variables (one map it keeps) on every request
 }
 
@@ -85,18 +86,19 @@ type localKeyT int
 var localStrKeys = []string{"user", "reqid", "secret", "mw"}
 
 type isoSink struct {
-	ptrs     []ptrEntry // pooled object + request identity at every handler entry / ErrorHandler call
-	probes   int
-	vec      map[string]string // component -> canonical JSON
-	reused   bool
-	reqSeq   uint64            // adaptor drive: number of the request being served (0 = wire drive)
-	holdAt   chan struct{}     // overlap cases: the probe reports that it is parked …
-	release  chan struct{}     // … and waits here
-	ehVec    map[string]string // what the ErrorHandler invoked last observed
-	ehCount  int
-	ehReused bool
-	lastBind string // what the Views engine received last
-	renders  int
+	ptrs      []ptrEntry // pooled object + request identity at every handler entry / ErrorHandler call
+	probes    int
+	vec       map[string]string // component -> canonical JSON
+	reused    bool
+	selfWrong []map[string]any  // handlers that check what they bound against what the request says
+	reqSeq    uint64            // adaptor drive: number of the request being served (0 = wire drive)
+	holdAt    chan struct{}     // overlap cases: the probe reports that it is parked …
+	release   chan struct{}     // … and waits here
+	ehVec     map[string]string // what the ErrorHandler invoked last observed
+	ehCount   int
+	ehReused  bool
+	lastBind  string // what the Views engine received last
+	renders   int
 }
 
 // ehObserve is what every ErrorHandler of the app does first: it writes down what it can see of
@@ -426,6 +428,7 @@ func isoBuild(cfg isoCfg) (*fiber.App, *isoSink) {
 	if cfg.ViewsOn == 0 {
 		fc.Views = &capViews{s}
 	}
+	fc.EnableSplittingOnParsers = cfg.Split
 	if cfg.BigBuf {
 		fc.ReadBufferSize = 16384 // request lines of several KiB; the write buffer stays at 4 KiB
 	}
@@ -652,6 +655,41 @@ func isoBuild(cfg isoCfg) (*fiber.App, *isoSink) {
 		pm := c.Route().Params
 		_ = pm
 		return c.SendString(fmt.Sprint("mutated ", len(q), len(h), len(rh), len(sd)))
+	}))
+
+	// Two handlers, each with a request type of its own — same type name, as handlers have them —
+	// for the same keys: a list here is a scalar there. Each checks what it bound against the
+	// request (documented: with EnableSplittingOnParsers a []string field receives the comma
+	// separated items, a string field the value as sent).
+	splitOf := func(v string) []string {
+		if cfg.Split {
+			return strings.Split(v, ",")
+		}
+		return []string{v}
+	}
+	app.Get("/lists/a", w(func(c fiber.Ctx) error {
+		type request struct {
+			L []string `query:"l"`
+			S string   `query:"s"`
+		}
+		var rq request
+		err := c.Bind().Query(&rq)
+		if err != nil || fmt.Sprint(rq.L) != fmt.Sprint(splitOf(c.Query("l"))) || rq.S != c.Query("s") {
+			s.selfWrong = append(s.selfWrong, map[string]any{"handler": "/lists/a (L []string, S string)", "url": strings.Clone(c.OriginalURL()), "bound": fmt.Sprintf("%+v", rq), "err": errStr(err)})
+		}
+		return c.SendString(fmt.Sprintf("%+v", rq))
+	}))
+	app.Get("/lists/b", w(func(c fiber.Ctx) error {
+		type request struct {
+			L string   `query:"l"`
+			S []string `query:"s"`
+		}
+		var rq request
+		err := c.Bind().Query(&rq)
+		if err != nil || rq.L != c.Query("l") || fmt.Sprint(rq.S) != fmt.Sprint(splitOf(c.Query("s"))) {
+			s.selfWrong = append(s.selfWrong, map[string]any{"handler": "/lists/b (L string, S []string)", "url": strings.Clone(c.OriginalURL()), "bound": fmt.Sprintf("%+v", rq), "err": errStr(err)})
+		}
+		return c.SendString(fmt.Sprintf("%+v", rq))
 	}))
 
 	app.Get("/getonly", w(func(c fiber.Ctx) error { return c.SendString("getonly") }))
